@@ -295,6 +295,10 @@ def c06_l2(name, mk, bug):
         if bug:
             if any(o[0] == "ok" for o in outs) and not all(o[0] == "ok" for o in outs):
                 return False
+            # the modes may stop at different problems, but an exception of user code that DISABLE / FIRST let through is never turned into a
+            # LoadError by ALL (it collects everything, so it has seen that exception too)
+            if (outs[0][0] == "other_exc" or outs[1][0] == "other_exc") and outs[2][0] != "other_exc":
+                return False
             continue
         if any(o[0] == "other_exc" for o in outs):
             continue                                   # C04's business
